@@ -42,10 +42,25 @@ def classify(mod, fn, call, pm):
         return "literal-template.format(escapes-arguments)"
     if isinstance(arg, ast.Call) and flow.dotted(arg.func) in ("urllib.parse.quote_plus",):
         return "percent-encoded"
-    # guarded by isinstance(<something>, Markup) in an enclosing if
+    # guarded by isinstance(X, Markup) in an enclosing if: admitted only when the argument is a
+    # safety-preserving transformation of that X (tags removed with entities kept; a trusted
+    # strftime format; escaped values substituted into a trusted message)
     for iff in flow.enclosing(pm, call, (ast.If, ast.IfExp)):
-        if "isinstance(" in flow.dotted(iff.test) and "Markup)" in flow.dotted(iff.test):
-            return "derived-from-trusted-markup"
+        for t in ast.walk(iff.test):
+            if isinstance(t, ast.Call) and flow.dotted(t.func) == "isinstance" and len(t.args) == 2 and flow.dotted(t.args[1]) == "Markup" and isinstance(t.args[0], ast.Name):
+                x = t.args[0].id
+                src = arg
+                if isinstance(arg, ast.Name) and fn is not None:
+                    defs = [st.value for st in ast.walk(fn) if isinstance(st, ast.Assign) and st.lineno < call.lineno and any(isinstance(tg, ast.Name) and tg.id == arg.id for tg in st.targets)]
+                    src = defs[-1] if defs else arg
+                d = flow.dotted(src)
+                if d == f"strip_tags({x})":
+                    return "trusted-markup-with-tags-removed(entities kept)"
+                if isinstance(src, ast.Call) and flow.dotted(src.func).endswith(".strftime") and [flow.dotted(a) for a in src.args] == [x]:
+                    return "strftime-of-a-trusted-format"
+                if isinstance(src, ast.Call) and flow.dotted(src.func) == "self.re_vars.sub" and len(src.args) == 2 and flow.dotted(src.args[1]) == x and "_vars[" in flow.dotted(src.args[0]):
+                    return "escaped-values-substituted-into-a-trusted-message"
+                return None
     # the name (or the names inside the argument) was assigned from an escaper earlier
     names = [n.id for n in ast.walk(arg) if isinstance(n, ast.Name)]
     if fn is not None:
@@ -88,6 +103,39 @@ def markup_provenance():
                     cls = "escaped-when-autoescape_message(registration-obligation)"
             obs.append(flow.ob(f"{where}@{call.lineno}:Markup-argument-has-admitted-provenance", cls is not None, f"Markup({flow.dotted(call.args[0])[:50] if call.args else ''}) -> {cls}", replay_schema="code", replay_extra={"code": REPLAY}))
     obs.append(flow.ob("markup-constructions-enumerated", n >= 15, f"{n} sites"))
+    return obs
+
+
+FLAGS = ("context.autoescape", "context.env.autoescape", "environment.autoescape", "env.autoescape", "self.env.autoescape")
+
+
+@structural("C05", "autoescape-flag-propagation")
+def flag_propagation():
+    """every stringification for output receives the environment's autoescape flag itself;
+    only the translate filters' MESSAGE arguments (developer text) may AND it with
+    autoescape_message; to_liquid_string has no default for the flag"""
+    obs = []
+    tls = load.get_module("liquid.stringify").funcs["to_liquid_string"]
+    obs.append(flow.ob("to_liquid_string:autoescape-has-no-default", not tls.args.defaults and not any(d is not None for d in tls.args.kw_defaults), ast.unparse(tls.args), replay_schema="code", replay_extra={"code": REPLAY_FLAG}))
+    n = 0
+    for m in load.all_modules():
+        mod = load.get_module(m)
+        pm = flow.parents(mod.tree)
+        for call in flow.calls(mod.tree):
+            if flow.dotted(call.func) != "to_liquid_string":
+                continue
+            n += 1
+            fns = flow.enclosing(pm, call, (ast.FunctionDef, ast.AsyncFunctionDef))
+            fn = fns[0] if fns else None
+            flag = call.args[1] if len(call.args) > 1 else flow.kwarg(call, "autoescape")
+            txt = flow.dotted(flag) if flag is not None else "<missing>"
+            local = set()
+            if fn is not None:
+                local = {t.id for st in ast.walk(fn) if isinstance(st, ast.Assign) and flow.dotted(st.value) in FLAGS for t in st.targets if isinstance(t, ast.Name)}
+            plain = txt in FLAGS or txt in local
+            message_arg = m == "liquid.extra.filters.translate" and fn is not None and fn.name == "__call__" and any(txt == f"{l} and self.autoescape_message" for l in local | set(FLAGS))
+            obs.append(flow.ob(f"{m.split('.', 1)[-1]}:{fn.name if fn else '?'}@{call.lineno}:stringified-with-the-environments-autoescape-flag", plain or message_arg, f"autoescape={txt}", replay_schema="code", replay_extra={"code": REPLAY_FLAG}))
+    obs.append(flow.ob("stringification-sites-found", n >= 15, f"{n} to_liquid_string call sites"))
     return obs
 
 
@@ -160,6 +208,18 @@ def tls(c):
     c.assume_note("markupsafe.escape returns text without raw < > & ' \\\" and returns text without special characters unchanged (DESIGN 3); str values that are Markup are indistinguishable from plain str in this value model and are passed through escape(), which is the identity on Markup")
     c.replay("code", code=REPLAY)
 
+
+REPLAY_FLAG = r'''
+def run(m):
+    import asyncio
+    from liquid import Environment
+    from liquid.extra.filters.translate import Translate
+    env = Environment(autoescape=True)
+    env.add_filter("t", Translate())
+    out = [env.from_string("{{ 'hi %(u)s' | t: u: u }}").render(u="<b>"),
+           asyncio.run(env.from_string("{% cycle u, u %}").render_async(u="<b>"))]
+    return {"violated": any("<b>" in o for o in out), "observed": out}
+'''
 
 not_covered("C05", "markupsafe itself; drops with __html__", "'every & begins an escape sequence' is not a provenance fact: bounded check", "filters returning plain str are re-escaped at output and need no obligation")
 
